@@ -170,7 +170,10 @@ def run_case(case, ctx):
                       % (p, R[p]["x"], [fx(v) for v in base[p]["x"]]))
             for k in base[p]:
                 if k != "x":
-                    ctx.check(_close_list(R[p][k], base[p][k]), "%s:values:%s" % (kind, p),
+                    # discrete profiles: events only, the framing entries never count
+                    a_, b_ = (R[p][k][1:-1], base[p][k][1:-1]) if "mp" in base[p] \
+                        else (R[p][k], base[p][k])
+                    ctx.check(_close_list(a_, b_), "%s:values:%s" % (kind, p),
                               lambda: "%s.%s %r vs base %r" % (p, k, R[p][k], base[p][k]))
         for s in SCALARS:
             ctx.check(_close_list(R[s], base[s]), "%s:scalar:%s" % (kind, s),
